@@ -2,6 +2,7 @@ package main
 
 import (
 	"fmt"
+	"os"
 	"go/constant"
 	"go/token"
 	"go/types"
@@ -91,8 +92,14 @@ func (e *Exec) lookupType(pkg, name string) types.Type {
 
 const maxDepth = 400
 
+// debugging aid: SYMGO_TRACE_CALL=<substring> prints every interpreted call whose name contains it
+var traceCall = os.Getenv("SYMGO_TRACE_CALL")
+
 func (e *Exec) callFunc(fn *ssa.Function, args []Value, bindings []Value, deferredBy *frame) (result Value) {
 	name := fn.String()
+	if traceCall != "" && strings.Contains(name, traceCall) {
+		fmt.Fprintf(os.Stderr, "[trace-call] %s\n", name)
+	}
 	if h, ok := e.stubFor(fn, name); ok {
 		return h(e, fn, args)
 	}
@@ -403,6 +410,21 @@ func (e *Exec) branchAt(fr *frame, ins ssa.Instruction, c *Term) bool {
 }
 
 func (e *Exec) execInstr(fr *frame, ins ssa.Instruction) {
+	li := e.lateFor(fr.fn)
+	if li.deferred[ins] {
+		return
+	}
+	if st, isStore := ins.(*ssa.Store); isStore {
+		for _, d := range li.chain[st] {
+			fr.cur = d
+			e.execInstr1(fr, d)
+		}
+		fr.cur = ins
+	}
+	e.execInstr1(fr, ins)
+}
+
+func (e *Exec) execInstr1(fr *frame, ins ssa.Instruction) {
 	switch i := ins.(type) {
 	case *ssa.DebugRef:
 	case *ssa.Alloc:
